@@ -30,11 +30,17 @@ def main():
             dst = os.path.join(tmp, "repo")
             shutil.copytree("/repo", dst, ignore=shutil.ignore_patterns(".git", "__pycache__", "__pkts__", "*.egg-info"))
             path = os.path.join(dst, m["file"])
+            if "from_rev" in m:
+                old = subprocess.run(["git", "-C", "/repo", "show", "%s:%s" % (m["from_rev"], m["file"])],
+                                     capture_output=True, text=True, check=True).stdout
+                open(path, "w").write(old)
+                m = dict(m, old="", new="")
             s = open(path).read()
-            if s.count(m["old"]) != 1:
+            if m["old"] and s.count(m["old"]) != 1:
                 rows.append((m["id"], "STALE (old text occurs %d times)" % s.count(m["old"])))
                 continue
-            open(path, "w").write(s.replace(m["old"], m["new"]))
+            if m["old"]:
+                open(path, "w").write(s.replace(m["old"], m["new"]))
             tests = "skipped"
             if not a.skip_tests:
                 p = subprocess.run(["/venv/bin/python", "-m", "pytest", "-q", "-p", "no:cacheprovider", "-x", "tests"],
